@@ -90,7 +90,7 @@ def mutations(draw, spec, lay, rendered, max_ops=4, min_ops=0,
     ops = []
     n = draw(st.integers(min_ops, max_ops))
     mtime = st.sampled_from([BASE_MTIME - 10, BASE_MTIME + 25,
-                             BASE_MTIME + 100])
+                             BASE_MTIME + 25.75, BASE_MTIME + 100])
     allowed = kinds or ['same-size', 'resize', 'delete', 'stray', 'retype',
                         'touch', 'manifest', 'dir-to-file', 'stray-dir']
     for _ in range(n):
